@@ -624,7 +624,9 @@ func c25Schedule(c *verifmc.Check) int {
 	horizon := MintYearDays * years
 	vals := make([]*big.Int, horizon+1)
 	sites := make([]string, horizon+1)
+	swept := make([]bool, years+1) // year jobs that ran to their end
 	complete := c.ParallelN(years+1, "schedule singles", func(_, y int) {
+		defer func() { swept[y] = true }()
 		for b := y * MintYearDays; b < (y+1)*MintYearDays && b <= horizon; b++ {
 			if b == 0 {
 				continue
@@ -639,6 +641,24 @@ func c25Schedule(c *verifmc.Check) int {
 			vals[b] = c25Units(v)
 		}
 	})
+	// every oracle below relates several batches (first panic, monotonicity,
+	// running sum, window sums): it is only evaluated over the contiguous prefix
+	// of the sweep that was actually executed. A sweep cut by the wall-clock cap
+	// leaves holes; a hole is "not computed", never "panics".
+	if !complete {
+		done := 0
+		for done <= years && swept[done] {
+			done++
+		}
+		horizon = done*MintYearDays - 1
+		if horizon > MintYearDays*years {
+			horizon = MintYearDays * years
+		}
+		c.Set("schedule_sweep_cut_after_batch", horizon)
+		if horizon < 1 {
+			return 0
+		}
+	}
 	pool := c25Units(MintPool)
 	defined := horizon
 	for b := 1; b <= horizon; b++ {
@@ -702,7 +722,7 @@ func c25Schedule(c *verifmc.Check) int {
 		const far = 10000
 		first := make([]*big.Int, far+2)
 		last := make([]*big.Int, far+2)
-		c.ParallelN(far+2-years, "schedule far years", func(_, k int) {
+		farDone := c.ParallelN(far+2-years, "schedule far years", func(_, k int) {
 			y := years + k
 			for e, b := range []uint64{uint64(y) * MintYearDays, uint64(y)*MintYearDays + MintYearDays - 1} {
 				var v common.Integer
@@ -722,7 +742,7 @@ func c25Schedule(c *verifmc.Check) int {
 			}
 		})
 		prev := vals[defined]
-		for y := years; y <= far+1; y++ {
+		for y := years; farDone && complete && y <= far+1; y++ {
 			for _, v := range []*big.Int{first[y], last[y]} {
 				if v == nil {
 					continue
@@ -763,6 +783,17 @@ func c25Schedule(c *verifmc.Check) int {
 		}
 		wins = append(wins, window{lo, hi})
 	}
+	// clip every window to the batches whose single amounts are known
+	kept := wins[:0]
+	for _, win := range wins {
+		if win.hi > defined {
+			win.hi = defined
+		}
+		if win.lo >= 0 && win.lo < win.hi {
+			kept = append(kept, win)
+		}
+	}
+	wins = kept
 	c.Set("multi_windows", len(wins))
 	c.Set("multi_year_boundaries", boundaries)
 	c.Set("multi_window_half_width", w)
@@ -1054,7 +1085,14 @@ func TestMC_C25(t *testing.T) {
 	})
 	for _, x := range ctxs {
 		if x == nil {
-			c.Require(false, "fixture missing")
+			// either the wall-clock cap cut the fixture loop (nothing more to do,
+			// the run is reported exhaustive:false) or a fixture error was recorded
+			c.Expired("fixtures")
+			for _, y := range ctxs {
+				if y != nil {
+					y.close()
+				}
+			}
 			return
 		}
 	}
